@@ -337,17 +337,21 @@ def toScalarArg (arg : Arg) : Except Exc Obj :=
 
 def mulDenom (s : Obj) (e : Deriv) : Shape := if !s.denom.isEmpty then s.denom else e.denom
 
+/-- one iteration of `for (key, arg_deriv) in arg._derivs_.items()` in `_mul_derivs`: the term `self_wod * arg_deriv`
+    (refused when both have denominators, `_raise_dual_denoms`) is added to the term from self's derivative of the
+    same key (Qube.__add__: equal denominators required) or becomes a new derivative -/
+def mulStep (s : Obj) (e : Deriv) : Except Exc (Option (String × Shape × Shape)) :=
+  if !s.denom.isEmpty && !e.denom.isEmpty then .error .valueError
+  else
+    match s.find e.key with
+    | some d => if d.denom == mulDenom s e then .ok none else .error .valueError
+    | none => .ok (some (e.key, s.shape, mulDenom s e))
+
 /-- `_mul_derivs(arg)`: products and sums of derivatives; a sum of two terms needs equal denominators, and a
     product of two objects that both have denominators is refused (`_raise_dual_denoms`) -/
 def mulDerivs (s a : Obj) : Except Exc (List (String × Shape × Shape)) := do
   let fromSelf := s.derivs.map fun d => (d.key, s.shape, d.denom)
-  let fromArg ← filterMapE (α := Deriv) (fun e =>
-    if !s.denom.isEmpty && !e.denom.isEmpty then throw Exc.valueError
-    else
-      -- `self_wod * arg_deriv` carries whichever denominator exists (`mulDenom`)
-      match s.find e.key with
-      | some d => if d.denom == mulDenom s e then pure none else throw Exc.valueError
-      | none => pure (some (e.key, s.shape, mulDenom s e))) a.derivs
+  let fromArg ← filterMapE (mulStep s) a.derivs
   pure (fromSelf ++ fromArg)
 
 /-- the part of Qube.__imul__ after the operand has been converted to a Qube (qube.py:3198-3229) -/
@@ -370,7 +374,7 @@ def vMulQ (s a : Obj) : V := do
       | some out =>
         let v := out ++ [n0, m1] ++ s.denom
         guard' (v == s.valuesShape) .valueError               -- _set_values_: shape test before the write
-        let nd ← mulDerivs { s with denom := s.denom } { a with shape := out }
+        let nd ← mulDerivs s { a with shape := out }
         pure ([.setValues v] ++ insertPrims s nd)
     | _, _ => raise .valueError
   else raise .typeError
@@ -482,12 +486,16 @@ def vInsertDeriv (s : Obj) (key : String) (d : Arg) (override : Bool) : V := do
   guard' (!(s.ro && s.hasKey key && !override)) .valueError
   pure [.insertDeriv key o.shape o.numer o.denom true override]
 
+/-- one iteration of the validation loop of insert_derivs: `self._require_compatible_deriv(key, deriv)` -/
+def insStep (s : Obj) (p : String × Arg) : Except Exc (String × Obj) :=
+  match compatibleDeriv s p.2 with
+  | .ok o => .ok (p.1, o)
+  | .error e => .error e
+
 /-- Qube.insert_derivs (qube.py:1542-1567): every check for every derivative first, then the inserts -/
 def vInsertDerivs (s : Obj) (ds : List (String × Arg)) (override : Bool) : V := do
   guard' (!(s.ro && !override && ds.any fun p => s.hasKey p.1)) .valueError
-  let os ← mapE (α := String × Arg) (fun p => do
-    let o ← compatibleDeriv s p.2
-    pure (p.1, o)) ds
+  let os ← mapE (insStep s) ds
   pure (os.map fun p => .insertDeriv p.1 p.2.shape p.2.numer p.2.denom true override)
 
 /-- Qube.delete_deriv (qube.py:1569-1588) -/
